@@ -25,7 +25,7 @@ impl Deserialize for Relays {
                 cbor_event::Len::Len(n) => arr.len() < n as usize,
                 cbor_event::Len::Indefinite => true,
             } {
-                if is_break_tag(raw, "Relays")? {
+                if is_break_tag(raw, &len, "Relays")? {
                     break;
                 }
                 arr.push(Relay::deserialize(raw)?);
